@@ -772,7 +772,14 @@ class G(object):
             slots = False
         ca = self.fresh(['class_attr', 'limit_value', 'A'])
         outer_ints = [n for n in self.names('int') if n.isidentifier()]
-        if outer_ints and self.p(0.35):
+        local_ints = [n for sc in self.scopes[1:] for n in sc['int'] if isinstance(n, str) and n.isidentifier()] if self.in_func else []
+        shadow = False
+        if local_ints and self.p(0.6):
+            # inside a function: the attribute is spelled like one of the function's own (renamable) locals
+            ca = self.ch(local_ints)
+            shadow = True
+            self.features.add('class_attr_shadows_function_local')
+        elif outer_ints and self.p(0.35):
             # a class attribute spelled like a variable of an enclosing scope: methods that read the bare name see the enclosing
             # variable (class bodies are skipped by closure lookup), `self.<name>` sees the attribute
             ca = self.ch(outer_ints)
@@ -790,9 +797,9 @@ class G(object):
         m = self.fresh(['method_one', 'compute', 'B'])
         self.emit('def %s(%s, amount, scale_factor=2):' % (m, self_name))
         self.emit('    local_total = %s.%s + amount * scale_factor' % (self_name, ia))
-        if outer_ints and self.p(0.5):
+        if outer_ints and self.p(0.8 if shadow else 0.5):
             self.features.add('method_reads_outer')
-            self.emit('    return local_total + %s.%s + %s' % (self_name, ca, ca if ca in outer_ints and self.p(0.6) else self.ch(outer_ints)))
+            self.emit('    return local_total + %s.%s + %s' % (self_name, ca, ca if ca in outer_ints and self.p(0.8 if shadow else 0.6) else self.ch(outer_ints)))
         else:
             self.emit('    return local_total + %s.%s' % (self_name, ca))
         methods = []
